@@ -168,7 +168,8 @@ impl Check for OpenClose {
         let mut w = World::new(mtu, iss, simultaneous, salts)?;
         w.record_trace = ctx.want_desc;
         // the exclusion is lifted in 1 of 16 cases so that the open known finding stays observable
-        let lift = e.chance(1, 16);
+        // (never lifted in the checksum build, where these schedules serve C18: the finding belongs to C03)
+        let lift = e.chance(1, 16) && !crate::codecs::CHECKSUM_BUILD;
         let cfg = GenCfg { closes: true, old_syn: !simultaneous, inject: false, max_ops: 120, byte_budget: 200_000, exclude_close_with_unsent: !lift, legacy_layout: ctx.legacy_layout };
         let nops = 5 + e.choose(cfg.max_ops - 4);
         // in 3/8 of the cases a legitimate prelude first drives the connection to a later state, so that closes,
@@ -305,7 +306,7 @@ impl Check for IsnIndependence {
         let iss1 = [gen_iss(e), gen_iss(e)];
         let near = |e: &mut Entropy| -> u32 {
             match e.weighted(&[4, 2, 2]) {
-                0 => u32::MAX - e.choose(70000) as u32,
+                0 => near_wrap(e.choose(70000) as u32),
                 1 => (1u32 << 31) - 1 - e.choose(70000) as u32,
                 _ => e.u32(),
             }
@@ -495,5 +496,27 @@ impl Check for HostileSegments {
             ctx.class("connection_survived");
         }
         Ok(())
+    }
+}
+
+/// C18 (TCB part): in the checksum build the C03 schedules (incl. simultaneous opens, retransmissions, closes, resets) are run
+/// and every segment a TCB emits is verified in `World::pump` with the independent RFC 1071 routine.
+pub struct ChecksumsOfTcb;
+
+impl Check for ChecksumsOfTcb {
+    fn id(&self) -> &'static str {
+        "C18.tcb"
+    }
+    fn rule(&self) -> String {
+        "compute_checksum build. generated: the schedules of C03 (active/passive and simultaneous opens, writes, faults, retransmissions, closes from every state, old duplicate SYNs); oracle: every segment either TCB emits (header serialised + text) sums to 0xffff together with its pseudo header under the harness's RFC 1071 routine, besides C03's own oracles. non-trivial: as C03. distinct: hash of decoded schedule".into()
+    }
+    fn max_entropy(&self) -> usize {
+        900
+    }
+    fn run(&self, e: &mut Entropy, ctx: &mut Ctx) -> Result<(), Failure> {
+        if !crate::codecs::CHECKSUM_BUILD {
+            fail!("harness", "not_the_checksum_build", "C18.tcb must run in the build with --features checksum");
+        }
+        OpenClose.run(e, ctx)
     }
 }
